@@ -88,7 +88,13 @@ def constructors(t, full):
             out.append(T('core::ops::Range<%s>' % t.src, [('(%s..%s)' % (a[0], b[0]), rng(a[1], b[1]), 0), ('(%s..%s)' % (b[0], a[0]), rng(b[1], a[1]), 1)], ord_=False, depth=d, partial_ord=False))
             out.append(T('core::ops::RangeInclusive<%s>' % t.src, [('(%s..=%s)' % (a[0], b[0]), rng(a[1], b[1]), 0)], ord_=False, depth=d, partial_ord=False))
         if t.ord:
-            srt = sorted(set((x[2], x[0], x[1]) for x in v), key=lambda z: z[0]) if all(isinstance(x[2], (int, str)) for x in v) and len({type(x[2]) for x in v}) == 1 else [(a[2], a[0], a[1])]
+            # distinct VALUES only (two positions of the domain may hold the same value, e.g. when the element type has a single value)
+            uniq = {}
+            for x in v:
+                uniq.setdefault(x[0], x)
+            uv = list(uniq.values())
+            trees = {x[1] for x in uv}
+            srt = sorted(((x[2], x[0], x[1]) for x in uv), key=lambda z: z[0]) if all(isinstance(x[2], (int, str)) for x in uv) and len({type(x[2]) for x in uv}) == 1 and len(trees) == len(uv) and len({x[2] for x in uv}) == len(uv) else [(a[2], a[0], a[1])]
             sett = [('BTreeSet::<%s>::new()' % t.src, 'C{_:S[]}', 0), ('BTreeSet::from([%s])' % ', '.join(z[1] for z in reversed(srt)), 'C{_:S[%s]}' % ','.join(z[2] for z in srt), 1)]
             out.append(T('BTreeSet<%s>' % t.src, sett, ord_=True, depth=d))
             out.append(T('BinaryHeap<%s>' % t.src, [('BinaryHeap::<%s>::new()' % t.src, 'C{_:S[]}', 0), ('BinaryHeap::from(vec![%s, %s])' % (a[0], a[0]), 'C{_:S[%s,%s]}' % (a[1], a[1]), 1)], ord_=False, depth=d, partial_ord=False))
